@@ -358,4 +358,13 @@ theorem two_gobuild_lines_raw (c : Ctx) (groups : List (List Comment)) (e1 e2 : 
     buildOkRaw c groups = .err := by
   unfold buildOkRaw; simp only [h1]
 
+/-- raw layer, the class of names the abstract rule never sees: a name that does not end in `.go` is skipped,
+    as the toolchain does not select it — for every path, context and `skipTest` -/
+theorem non_go_names_agree (k : Known) (c : Ctx) (p : List Char) (skipTest : Bool)
+    (h : Str.hasSuffix ".go".toList p = false) :
+    skipFileRaw k c p skipTest = true ∧ Spec.nameOkRaw c p skipTest = false := by
+  have h' : Str.hasSuffix ['.', 'g', 'o'] p = false := h
+  unfold skipFileRaw Spec.nameOkRaw
+  simp [h']
+
 end YaegiVerif.Props.C17
